@@ -17,9 +17,15 @@
 (*                                                                         *)
 (* What the statement does not pin down is flagged, not guessed:           *)
 (*  - "the block of highest number with a supermajority" is only a         *)
-(*    definition when the supermajority blocks form a chain (always the    *)
-(*    case for tolerant vote sets, invariant ChainWhenTolerant); cmpGhost, *)
-(*    cmpFin, cmpPcGhost say when the respective value is compared;        *)
+(*    definition when the supermajority blocks form a chain, which the     *)
+(*    paper guarantees (and invariant ChainWhenTolerant proves) for        *)
+(*    TOLERANT vote sets (equivocating weight <= f).  For intolerant sets  *)
+(*    the protocol promises nothing and nothing is compared except that    *)
+(*    the import neither fails nor panics (finality-grandpa does not even  *)
+(*    enter the second vote of an equivocator into its vote graph, so      *)
+(*    with > f equivocators its GHOST can be below the literal "highest    *)
+(*    block with a supermajority"); cmpGhost, cmpFin, cmpPc say when the   *)
+(*    respective value is compared;                                        *)
 (*  - "possible to have a supermajority" quantifies over TOLERANT          *)
 (*    extensions of the precommit set, so estimate and completability are  *)
 (*    compared (cmpEst) only when the precommits seen are tolerant, the    *)
@@ -30,13 +36,16 @@
 (*    the GHOST" is not derivable from the definition; invariant           *)
 (*    ShortcutExact proves it for n = 3f+1).                               *)
 (***************************************************************************)
-EXTENDS VoteForest, TLC, Json
+EXTENDS GrandpaVotes, TLC, Json
 
 CONSTANTS Trees,    \* set of block trees (sequences, see VoteForest)
           Voters,   \* set of voter ids
           W,        \* weight function  Voters -> Nat \ {0}
           MaxPV,    \* bound: distinct prevote targets kept per voter
           MaxPC,    \* bound: distinct precommit targets kept per voter
+          EqV,      \* voters that may cast more than one vote per phase (the others cast at most one)
+          PVUnanimous, \* TRUE: model checking restricted to prevote sets in which every prevote names
+                       \* the same block (the precommit-side notions see the prevotes only through g(V))
           Depth     \* behaviour length (generator)
 
 VARIABLES par,   \* the block tree of this behaviour
@@ -47,107 +56,9 @@ VARIABLES par,   \* the block tree of this behaviour
 vars == <<par, pv, pc, hist, done>>
 
 --------------------------------------------------------------------------
-(* ---- paper definitions (pure; S is one phase's vote function) --------- *)
-
-RSVoted(S) == {v \in DOMAIN S : S[v] # {}}
-
-(* "an equivocator": two different votes in the same phase *)
-RSEquiv(S) == {v \in DOMAIN S : Cardinality(S[v]) >= 2}
-
-(* voters counted for block b: "voters who either have a vote for blocks   *)
-(* >= B or equivocate in S" -- an equivocator counts towards EVERY block   *)
-RSSupp(t, S, b) == {v \in DOMAIN S : v \in RSEquiv(S) \/ \E x \in S[v] : VFGeq(t, x, b)}
-
-RSTotal(w) == VFSum(w, DOMAIN w)
-RSThr(w) == VFThreshold(RSTotal(w))
-RSFaulty(w) == VFFaulty(RSTotal(w))
-
-(* "S has a supermajority for B" *)
-RSHasSM(t, w, S, b) == VFSum(w, RSSupp(t, S, b)) >= RSThr(w)
-RSSMBlocks(t, w, S) == {b \in VFBlocks(t) : RSHasSM(t, w, S, b)}
-
-(* "S is tolerant": at most f weight equivocates *)
-RSTolerant(w, S) == VFSum(w, RSEquiv(S)) <= RSFaulty(w)
-
-(* g(S): "the block of highest block number such that S has a              *)
-(* supermajority for it", 0 = nil                                          *)
-RSGhostDefined(t, w, S) == VFIsChain(t, RSSMBlocks(t, w, S))
-RSGhost(t, w, S) == LET B == RSSMBlocks(t, w, S) IN IF B = {} THEN 0 ELSE VFTop(t, B)
-
-(* "it is possible for S to have a supermajority for B": some tolerant     *)
-(* extension of S has one.  sup = voters already counted for B.  Voters    *)
-(* that have not voted may all vote for B; voters that voted elsewhere can *)
-(* only be won by equivocating, within the tolerated weight.               *)
-RSPossibleSup(w, S, sup) ==
-  LET notyet == DOMAIN S \ RSVoted(S)
-      other == RSVoted(S) \ sup
-  IN \E X \in SUBSET other :
-        /\ VFSum(w, RSEquiv(S) \cup X) <= RSFaulty(w)
-        /\ VFSum(w, sup \cup notyet \cup X) >= RSThr(w)
-RSPossible(t, w, S, b) == RSPossibleSup(w, S, RSSupp(t, S, b))
-(* a block nobody has voted for yet (e.g. a child of the GHOST not seen)   *)
-RSPossibleUnseen(w, S) == RSPossibleSup(w, S, RSEquiv(S))
-
-(* the paper's closed form (stated for n = 3f+1): impossible iff at least  *)
-(* a threshold of voters vote for a block not >= B or equivocate           *)
-RSImpossiblePaper(t, w, S, b) ==
-  VFSum(w, (RSVoted(S) \ RSSupp(t, S, b)) \cup RSEquiv(S)) >= RSThr(w)
-
-(* the arithmetic used by finality-grandpa (round.go possibleToPrecommit)  *)
-RSPossibleArith(t, w, S, b) ==
-  LET for == VFSum(w, RSSupp(t, S, b))
-      cur == VFSum(w, RSVoted(S))
-      add == RSFaulty(w) - VFSum(w, RSEquiv(S))
-      rem == RSTotal(w) - cur
-      eqv == IF cur - for <= add THEN cur - for ELSE add
-  IN for + rem + eqv >= RSThr(w)
-
-(* E: "the last block in the chain with head g(V) for which it is possible *)
-(* for C to have a supermajority"                                          *)
-RSEstimate(t, w, V, C) ==
-  LET g == RSGhost(t, w, V)
-  IN IF g = 0 THEN 0
-     ELSE LET P == {b \in VFAnc(t, g) : RSPossible(t, w, C, b)}
-          IN IF P = {} THEN 0 ELSE VFTop(t, P)
-
-(* finalized in the round: highest block <= g(V) with a precommit          *)
-(* supermajority                                                           *)
-RSFinalized(t, w, V, C) ==
-  LET g == RSGhost(t, w, V)
-  IN IF g = 0 THEN 0
-     ELSE LET F == VFAnc(t, g) \cap RSSMBlocks(t, w, C)
-          IN IF F = {} THEN 0 ELSE VFTop(t, F)
-
-(* "If either E < g(V) or it is impossible for C to have a supermajority   *)
-(* for any children of g(V), then the round is completable"                *)
-RSCompletable(t, w, V, C) ==
-  LET g == RSGhost(t, w, V)
-      e == RSEstimate(t, w, V, C)
-  IN /\ g # 0 /\ e # 0
-     /\ \/ e # g
-        \/ /\ ~RSPossibleUnseen(w, C)
-           /\ \A c \in VFChildren(t, g) : ~RSPossible(t, w, C, c)
-
-RSUnit(w) == \A v \in DOMAIN w : w[v] = 1
-
-(* when estimate / completability are pinned down by the statement         *)
-RSEstPinned(t, w, V, C) ==
-  /\ RSGhostDefined(t, w, V) /\ RSTolerant(w, C) /\ RSUnit(w)
-  /\ \/ RSTotal(w) % 3 = 1
-     \/ VFSum(w, RSVoted(C)) >= RSThr(w)
-
-RSObs(t, w, V, C) ==
-  [ghost    |-> RSGhost(t, w, V),
-   fin      |-> RSFinalized(t, w, V, C),
-   est      |-> RSEstimate(t, w, V, C),
-   comp     |-> RSCompletable(t, w, V, C),
-   pcghost  |-> RSGhost(t, w, C),
-   cmpGhost |-> RSGhostDefined(t, w, V),
-   cmpFin   |-> RSGhostDefined(t, w, V) /\ VFIsChain(t, VFAnc(t, RSGhost(t, w, V)) \cap RSSMBlocks(t, w, C)),
-   cmpPc    |-> RSGhostDefined(t, w, C),
-   cmpEst   |-> RSEstPinned(t, w, V, C),
-   tolV     |-> RSTolerant(w, V),
-   tolC     |-> RSTolerant(w, C)]
+(* The paper definitions (RS* operators: RSGhost, RSEstimate, RSFinalized, *)
+(* RSCompletable, RSObs ...) live in the pure module lib/GrandpaVotes.tla    *)
+(* so that other families (C19 Justification, C22) can EXTEND them.         *)
 
 --------------------------------------------------------------------------
 (* ---- state machine: one import per step ------------------------------- *)
@@ -163,8 +74,10 @@ Init == /\ par \in Trees
 Ops == {[op |-> "Prevote", v |-> v, b |-> b] : v \in Voters, b \in Blocks}
   \cup {[op |-> "Precommit", v |-> v, b |-> b] : v \in Voters, b \in Blocks}
 
-Allowed(o) == IF o.op = "Prevote" THEN Cardinality(pv[o.v] \cup {o.b}) <= MaxPV
-              ELSE Cardinality(pc[o.v] \cup {o.b}) <= MaxPC
+Allowed(o) == /\ (PVUnanimous /\ o.op = "Prevote") => \A v \in Voters : pv[v] \subseteq {o.b}
+              /\ LET mx == IF o.v \in EqV THEN (IF o.op = "Prevote" THEN MaxPV ELSE MaxPC) ELSE 1
+                 IN IF o.op = "Prevote" THEN Cardinality(pv[o.v] \cup {o.b}) <= mx
+                    ELSE Cardinality(pc[o.v] \cup {o.b}) <= mx
 
 Apply(o) == /\ pv' = IF o.op = "Prevote" THEN [pv EXCEPT ![o.v] = @ \cup {o.b}] ELSE pv
             /\ pc' = IF o.op = "Precommit" THEN [pc EXCEPT ![o.v] = @ \cup {o.b}] ELSE pc
@@ -215,55 +128,53 @@ ChainWhenTolerant ==
   /\ RSTolerant(W, pv) => RSGhostDefined(par, W, pv)
   /\ RSTolerant(W, pc) => RSGhostDefined(par, W, pc)
 
-(* n - floor((n-1)/3) is the paper's (n+f+1)/2 for n = 3f+1 *)
-PaperThreshold ==
-  (RSUnit(W) /\ RSTotal(W) % 3 = 1) =>
-     LET n == RSTotal(W) f == (n - 1) \div 3 IN 2 * RSThr(W) = n + f + 1
-
-(* the three formulations of "possible" agree where each is meant to hold *)
+(* the three formulations of "possible" agree where each is meant to hold: *)
+(* the definition (tolerant extension exists), the paper's closed form     *)
+(* (n = 3f+1) and the arithmetic of the implementation                     *)
 PossibleForms ==
   (RSTolerant(W, pc) /\ RSUnit(W)) =>
     \A b \in Blocks :
-       /\ RSPossible(par, W, pc, b) = RSPossibleArith(par, W, pc, b)
-       /\ (RSTotal(W) % 3 = 1) => (RSPossible(par, W, pc, b) = ~RSImpossiblePaper(par, W, pc, b))
+       LET p == RSPossible(par, W, pc, b)
+       IN /\ p = RSPossibleArith(par, W, pc, b)
+          /\ (RSTotal(W) % 3 = 1) => (p = ~RSImpossiblePaper(par, W, pc, b))
 
-(* finalized and estimate lie on the chain of the prevote GHOST, and a     *)
-(* block finalized in the round is never above the estimate                *)
-Ordering ==
+(* finalized and estimate lie on the chain of the prevote GHOST; a block   *)
+(* finalized in the round is never above the estimate; with fewer than a   *)
+(* threshold of precommits every block is still possible when n = 3f+1:    *)
+(* estimate = GHOST and the round is not completable (finality-grandpa's   *)
+(* early exit); once a threshold of precommits is in, a block nobody voted *)
+(* for can never get a supermajority (so only voted blocks matter)         *)
+PrecommitSide ==
   (RSTolerant(W, pv) /\ RSTolerant(W, pc)) =>
     LET g == RSGhost(par, W, pv)
-        e == RSEstimate(par, W, pv, pc)
-        f == RSFinalized(par, W, pv, pc)
+        e == RSEstimateG(par, W, g, pc)
+        f == RSFinalizedG(par, W, g, pc)
+        seen == VFSum(W, RSVoted(pc))
     IN /\ (e # 0 => VFGeq(par, g, e))
        /\ (f # 0 => VFGeq(par, g, f))
        /\ (f # 0 => (e # 0 /\ VFGeq(par, e, f)))
        /\ (g # 0 => e # 0)
-
-(* with fewer than a threshold of precommits, every block is still         *)
-(* possible when n = 3f+1: estimate = GHOST and the round is not           *)
-(* completable (this is finality-grandpa's early exit)                     *)
-ShortcutExact ==
-  (RSUnit(W) /\ RSTotal(W) % 3 = 1 /\ RSTolerant(W, pc) /\ RSTolerant(W, pv)
-     /\ VFSum(W, RSVoted(pc)) < RSThr(W) /\ RSGhost(par, W, pv) # 0) =>
-    /\ RSEstimate(par, W, pv, pc) = RSGhost(par, W, pv)
-    /\ ~RSCompletable(par, W, pv, pc)
-
-(* once a threshold of precommits is in, a block nobody voted for can      *)
-(* never get a supermajority (so only voted blocks matter)                 *)
-UnseenImpossible ==
-  (RSTolerant(W, pc) /\ VFSum(W, RSVoted(pc)) >= RSThr(W)) => ~RSPossibleUnseen(W, pc)
+       /\ (RSUnit(W) /\ RSTotal(W) % 3 = 1 /\ seen < RSThr(W) /\ g # 0) =>
+             (e = g /\ ~RSCompletableG(par, W, g, e, pc))
+       /\ (seen >= RSThr(W)) => ~RSPossibleUnseen(W, pc)
 
 (* action properties: growing vote sets only ever                          *)
 (*  - add supermajority blocks (GHOSTs move up their chain),               *)
 (*  - remove possibilities (impossible stays impossible),                  *)
 (*  - raise the finalized block.                                           *)
 MonoStep ==
-  /\ RSSMBlocks(par, W, pv) \subseteq RSSMBlocks(par', W, pv')
-  /\ RSSMBlocks(par, W, pc) \subseteq RSSMBlocks(par', W, pc')
-  /\ (RSTolerant(W, pv') /\ RSGhost(par, W, pv) # 0) => VFGeq(par, RSGhost(par', W, pv'), RSGhost(par, W, pv))
-  /\ RSTolerant(W, pc') =>
-        \A b \in Blocks : ~RSPossible(par, W, pc, b) => ~RSPossible(par', W, pc', b)
-  /\ (RSTolerant(W, pv') /\ RSTolerant(W, pc') /\ RSFinalized(par, W, pv, pc) # 0) =>
-        VFGeq(par, RSFinalized(par', W, pv', pc'), RSFinalized(par, W, pv, pc))
+  LET smV == RSSMBlocks(par, W, pv)   smV2 == RSSMBlocks(par', W, pv')
+      smC == RSSMBlocks(par, W, pc)   smC2 == RSSMBlocks(par', W, pc')
+      g == IF smV = {} THEN 0 ELSE VFTop(par, smV)
+      g2 == IF smV2 = {} THEN 0 ELSE VFTop(par, smV2)
+      tolV2 == RSTolerant(W, pv')
+      tolC2 == RSTolerant(W, pc')
+  IN
+  /\ smV \subseteq smV2
+  /\ smC \subseteq smC2
+  /\ (tolV2 /\ g # 0) => VFGeq(par, g2, g)
+  /\ tolC2 => \A b \in Blocks : ~RSPossible(par, W, pc, b) => ~RSPossible(par', W, pc', b)
+  /\ (tolV2 /\ tolC2 /\ RSFinalizedG(par, W, g, pc) # 0) =>
+        VFGeq(par, RSFinalizedG(par', W, g2, pc'), RSFinalizedG(par, W, g, pc))
 Monotone == [][MonoStep]_vars
 =============================================================================
